@@ -20,6 +20,7 @@ import (
 	"verif/mc/reftrie"
 
 	"github.com/NethermindEth/juno/blockchain"
+	"github.com/NethermindEth/juno/core"
 	"github.com/NethermindEth/juno/core/felt"
 	"github.com/NethermindEth/juno/db/memory"
 	"github.com/NethermindEth/juno/jsonrpc"
@@ -373,55 +374,113 @@ func (c *rpcCtx) verify(rq *request, body string, resp *jResp) {
 			return
 		}
 	}
+	// want[j][k]: the value the state holds; root[j]: the authenticated storage root (zero for an absent contract)
+	type claim struct {
+		skip   bool
+		exists bool
+		root   felt.Felt
+		want   []felt.Felt
+	}
+	claims := make([]claim, len(rq.storage))
 	for j, s := range rq.storage {
 		model, exists := c.st.Contracts[s.c]
 		root, authenticated := storageRoot[s.c]
 		if !exists {
 			root, authenticated = felt.Zero, true // absence of the contract was proven above; nothing can be stored
 		}
-		if !authenticated {
-			continue // the contract itself failed above (already reported)
-		}
+		claims[j] = claim{skip: !authenticated, exists: exists, root: root} // skip: the contract itself failed above (already reported)
 		for _, k := range s.keys {
 			var want felt.Felt
 			if exists {
 				want = model.Storage[k]
 			}
-			vd := indVerify(ped, root, k.BigInt(new(big.Int)), 251, sets[j])
-			c.loc["#evaluations"]++
-			c.loc["#rpc_storage_claims"]++
-			if vd.OK && vd.Val.Equal(&want) {
-				switch {
-				case !exists:
-					c.loc.add("rpc storage: contract absent")
-				case root.IsZero():
-					c.loc.add("rpc storage: empty storage trie")
-				case want.IsZero():
-					c.loc.add("rpc storage: absence proven")
-				default:
-					c.loc.add("rpc storage: membership proven")
-				}
-				continue
-			}
-			// positional proof failed: is the right proof somewhere else in the response?
-			elsewhere := -1
-			for j2 := range sets {
-				if vd2 := indVerify(ped, root, k.BigInt(new(big.Int)), 251, sets[j2]); j2 != j && vd2.OK && vd2.Val.Equal(&want) {
-					elsewhere = j2
-				}
-			}
-			if elsewhere >= 0 {
-				// one key per API version: the defect class is "the i-th storage proof is not the i-th requested contract's"
-				r.Violate(c.key("storage-proofs-not-in-request-order"), c.detail(body, map[string]any{"state_backend": c.backend, "contract": s.c.String(), "slot": k.String(), "request_index": j, "found_at_index": elsewhere}))
-				continue
-			}
-			if false {
-				bad("", map[string]any{"contract": s.c.String(), "slot": k.String(), "request_index": j, "found_at_index": elsewhere})
-			} else {
-				bad("storage-proof-does-not-establish-the-slot-value", map[string]any{"contract": s.c.String(), "slot": k.String(), "want": want.String(), "verdict": vd,
-					"storage_root": root.String(), "index": j})
+			claims[j].want = append(claims[j].want, want)
+		}
+	}
+	// establishes(j, j2): the j2-th node list proves every requested slot of the j-th requested contract
+	establishes := func(j, j2 int) (bool, int, verdict) {
+		for i, k := range rq.storage[j].keys {
+			vd := indVerify(ped, claims[j].root, k.BigInt(new(big.Int)), 251, sets[j2])
+			if !vd.OK || !vd.Val.Equal(&claims[j].want[i]) {
+				return false, i, vd
 			}
 		}
+		return true, -1, verdict{}
+	}
+	type failure struct {
+		j, i int
+		vd   verdict
+	}
+	var failed []failure
+	for j, s := range rq.storage {
+		if claims[j].skip {
+			continue
+		}
+		c.loc["#evaluations"] += int64(len(s.keys))
+		c.loc["#rpc_storage_claims"] += int64(len(s.keys))
+		ok, i, vd := establishes(j, j)
+		if !ok {
+			failed = append(failed, failure{j, i, vd})
+			continue
+		}
+		for i := range s.keys {
+			switch {
+			case !claims[j].exists:
+				c.loc.add("rpc storage: contract absent")
+			case claims[j].root.IsZero():
+				c.loc.add("rpc storage: empty storage trie")
+			case claims[j].want[i].IsZero():
+				c.loc.add("rpc storage: absence proven")
+			default:
+				c.loc.add("rpc storage: membership proven")
+			}
+		}
+	}
+	if len(failed) == 0 {
+		return
+	}
+	// Positional proofs failed. The known defect class is "the i-th storage proof is not the i-th requested contract's":
+	// the response is then a permutation of correct proofs. That is decided exactly: is there a one-to-one assignment of
+	// node lists to requested contracts under which every requested slot is established? Anything else (a list that
+	// lacks nodes, a list that serves two contracts, a wrong value) is a different violation and is reported as such.
+	n := len(rq.storage)
+	okm := make([][]bool, n)
+	for j := 0; j < n; j++ {
+		okm[j] = make([]bool, n)
+		for j2 := 0; j2 < n; j2++ {
+			okm[j][j2] = claims[j].skip
+			if !claims[j].skip {
+				okm[j][j2], _, _ = establishes(j, j2)
+			}
+		}
+	}
+	used := make([]bool, n)
+	var assign func(j int) bool
+	assign = func(j int) bool {
+		if j == n {
+			return true
+		}
+		for j2 := 0; j2 < n; j2++ {
+			if !used[j2] && okm[j][j2] {
+				used[j2] = true
+				if assign(j + 1) {
+					return true
+				}
+				used[j2] = false
+			}
+		}
+		return false
+	}
+	if assign(0) {
+		f := failed[0]
+		r.Violate(c.key("storage-proofs-not-in-request-order"), c.detail(body, map[string]any{"state_backend": c.backend, "contract": rq.storage[f.j].c.String(),
+			"slot": rq.storage[f.j].keys[f.i].String(), "request_index": f.j, "positional_failures": len(failed)}))
+		return
+	}
+	for _, f := range failed {
+		bad("storage-proof-does-not-establish-the-slot-value", map[string]any{"contract": rq.storage[f.j].c.String(), "slot": rq.storage[f.j].keys[f.i].String(),
+			"want": claims[f.j].want[f.i].String(), "verdict": f.vd, "storage_root": claims[f.j].root.String(), "index": f.j, "nodes_in_list": len(sets[f.j]),
+			"note": "no one-to-one assignment of the returned node lists to the requested contracts establishes every slot"})
 	}
 }
 
@@ -468,6 +527,64 @@ func reachable(version string, depth int) []*reach {
 	return out
 }
 
+// sharedStorage: histories in which two contracts' storage tries have nodes in common - equal tries (same root), and a
+// common subtree under different roots - so that one request proving both contracts visits the same node twice. The
+// shared alphabet never produces these (A, B and C write different values).
+func sharedStorage(version string) []*reach {
+	var out []*reach
+	letter := func(parent *chain.Entry, name string) chain.Named {
+		var st *chain.State
+		var num uint64
+		if parent != nil {
+			st, num = parent.State, parent.Block.Number+1
+		}
+		for _, nm := range chain.Alphabet(st, num, version) {
+			if nm.Name == name {
+				return nm
+			}
+		}
+		panic("no letter " + name)
+	}
+	write := func(name string, w map[felt.Felt]map[felt.Felt]uint64) func(parent *chain.Entry) chain.Named {
+		return func(parent *chain.Entry) chain.Named {
+			d := core.EmptyStateDiff()
+			for a, m := range w {
+				d.StorageDiffs[a] = map[felt.Felt]*felt.Felt{}
+				for k, v := range m {
+					d.StorageDiffs[a][k] = chain.F(v)
+				}
+			}
+			return chain.Named{Name: name, Spec: chain.BlockSpec{Version: version, Timestamp: 1000 + (parent.Block.Number+1)*10, Diff: &d}}
+		}
+	}
+	far := chain.FV(0x40)
+	for _, tail := range [][]func(*chain.Entry) chain.Named{
+		{write("A.s0=9 (A's storage equals B's)", map[felt.Felt]map[felt.Felt]uint64{chain.AddrA: {chain.Slot0: 9}})},
+		{write("A.s0=9,s1=1,0x40=5; B.s1=1 (B's trie is a subtree of A's)", map[felt.Felt]map[felt.Felt]uint64{
+			chain.AddrA: {chain.Slot0: 9, chain.Slot1: 1, far: 5}, chain.AddrB: {chain.Slot1: 1}})},
+		{write("A.s0=9,s1=1; B.s1=1", map[felt.Felt]map[felt.Felt]uint64{chain.AddrA: {chain.Slot0: 9, chain.Slot1: 1}, chain.AddrB: {chain.Slot1: 1}}),
+			write("A.0x40=5; sys2.0x40=5", map[felt.Felt]map[felt.Felt]uint64{chain.AddrA: {far: 5}, chain.Sys2: {far: 5}})},
+	} {
+		var parent *chain.Entry
+		rc := &reach{version: version}
+		step := func(nm chain.Named) {
+			e, err := chain.Build(parent, nm.Spec)
+			if err != nil {
+				panic(err)
+			}
+			rc.names, rc.entries, parent = append(rc.names, nm.Name), append(rc.entries, e), e
+		}
+		for _, n := range []string{"deployA", "declareS1", "deployB+touch"} {
+			step(letter(parent, n))
+		}
+		for _, t := range tail {
+			step(t(parent))
+		}
+		out = append(out, rc)
+	}
+	return out
+}
+
 func runRPC(r *ev.Run) {
 	depth := ev.Pick(r, 3, 4)
 	var all []*reach
@@ -480,6 +597,9 @@ func runRPC(r *ev.Run) {
 			d = 2
 		}
 		all = append(all, reachable(v, d)...)
+	}
+	for _, v := range []string{"0.13.2", "0.14.0"} {
+		all = append(all, sharedStorage(v)...)
 	}
 	r.Set("rpc_distinct_states", int64(len(all)))
 	total := tally{}
